@@ -29,7 +29,21 @@ SEEDS = ['input(a) output(x,y,z) x=not(a) y=buf(a) z=and(a,a)', 'input(a,b) outp
 
 
 def impl(k):
+    if IMPLS[k] == 'VSTYLE': return impl_vstyle()
     c = bench.parse(IMPLS[k]); c.eliminate_1to1_forks()
+    return c
+
+
+def impl_vstyle():
+    """implementation as a Verilog parser builds it: 'input'/'output' port cells; the fork of signal t feeds output port Y on branch 0 and an inverter on branch 1"""
+    c = Circuit('vstyle')
+    a = Node(c, 'A', 'input'); y = Node(c, 'Y', 'output'); z = Node(c, 'Z', 'output'); c.io_nodes += [a, y, z]
+    fa = Node(c, 'A'); Line(c, a, fa)
+    g = Node(c, 'g', 'BUF1'); Line(c, fa, g)
+    ft = Node(c, 't'); Line(c, g, ft)
+    Line(c, ft, y)
+    h = Node(c, 'h', 'INV1'); Line(c, ft, h)
+    fz = Node(c, 'zz'); Line(c, h, fz); Line(c, fz, z)
     return c
 
 
@@ -119,6 +133,8 @@ def apply_op(eng, c, step, trace):
     elif op == 'rmline':
         l = c.lines[eng.choose(len(c.lines))]
         trace.append(('remove line', l.index)); l.remove()
+        if l.driver is None and loaded and eng.choose(2):          # removing a line that is already removed is a no-op (clean-up lists may hold a line twice)
+            trace.append(('remove the same line again',)); l.remove()
     elif op == 'rmnode':
         cand = [n for n in nodes if all(l is None for l in n.ins) and all(l is None for l in n.outs)]
         n = cand[eng.choose(len(cand))]
@@ -214,6 +230,9 @@ def nn(n): return ('fork:' if n.kind == '__fork__' else 'cell:') + n.name
 
 def replay(data):
     """re-run a recorded history on the real code"""
+    if data.get('mode') == 'vstyle':
+        p = vstyle_case(tuple(data['mask']))
+        return bool(p), str(p)
     c = Circuit('h')
     try:
         for t in data['trace']:
@@ -228,14 +247,16 @@ def replay(data):
                     n = resolve_node(c, name)
                     return n if pin is None else (n, pin)
                 Line(c, res(t[1]), res(t[2]))
-            elif t[0] == 'remove line': c.lines[t[1]].remove()
+            elif t[0] == 'remove line':
+                last_removed = c.lines[t[1]]; last_removed.remove()
+            elif t[0] == 'remove the same line again': last_removed.remove()
             elif t[0] == 'remove node':
                 n = resolve_node(c, t[1])
                 if any(n is x for x in c.io_nodes): c.io_nodes.remove(n)
                 n.remove()
             elif t[0] == 'eliminate_1to1_forks': c.eliminate_1to1_forks()
             elif t[0] == 'substitute':
-                im = bench.parse(t[2]); im.eliminate_1to1_forks()
+                im = impl(IMPLS.index(t[2]))
                 c.substitute(next(n for n in c.nodes if n.name == t[1] and n.kind != '__fork__'), im)
             elif t[0] == 'copy': c = c.copy()
             elif t[0] == 'pickle': c = pickle.loads(pickle.dumps(c))
@@ -244,6 +265,35 @@ def replay(data):
     except Exception as e:
         return True, f'{type(e).__name__}: {e}'
     return False, 'invariant holds'
+
+
+def vstyle_case(mask):
+    """instance u (input from a port, outputs Y/Z connected per mask) substituted by the Verilog-style implementation; -> (circuit or None, problem)"""
+    c = Circuit('w'); u = Node(c, 'u', 'XV')
+    pi = Node(c, 'i0', 'input'); c.io_nodes.append(pi); f = Node(c, 'i0'); Line(c, pi, f); Line(c, f, (u, 0))
+    for k in range(2):
+        if not mask[k]: continue
+        fo = Node(c, f'o{k}'); Line(c, (u, k), fo); po = Node(c, f'o{k}', 'output'); c.io_nodes.append(po); Line(c, fo, po)
+    try:
+        c.substitute(u, impl_vstyle())
+        p = invariant(c)
+        if p is None:
+            c.eliminate_1to1_forks(); p = invariant(c)
+            c2 = pickle.loads(pickle.dumps(c.copy())); p = p or invariant(c2)
+    except Exception as e:
+        p = f'{type(e).__name__}: {e}'
+    return p
+
+
+def vstyle_job(rep):
+    import itertools
+    for mask in itertools.product([True, False], repeat=2):
+        rep.counts['steps'] += 1; rep.counts['paths'] += 1
+        p = vstyle_case(mask)
+        if p:
+            # known: the port branch of an internal fork leaves a gap when that output is left open (only with implementations in Verilog style)
+            key = 'substitute/verilog-style-implementation/open-output-leaves-fork-gap' if not mask[0] else 'substitute/verilog-style-implementation'
+            rep.violation(key, f'substituting an instance (outputs connected: {list(mask)}) by an implementation with port cells and an internal fork that feeds a port on branch 0: {p}', {'mode': 'vstyle', 'mask': list(mask)})
 
 
 def job(j):
@@ -256,6 +306,7 @@ def run(tier, seed):
     except Exception as e:
         P = [[]]
     rep = common.pmap(job, [(p, H) for p in P], chunksize=1)
+    vstyle_job(rep)
     n = int(rep.counts['paths'])
     cov = {
         'evaluations': n, 'distinct_nontrivial': n, 'rule': f'every edit history of length {H} from the empty circuit (<= 4 live nodes) generated by exhaustive forking over operation and operand choices; each history is distinct by construction '
